@@ -117,10 +117,10 @@ def run(P, tier="quick"):
             l, r = c.kids[0].strip(), c.kids[1].strip()
             if l.k == "BinaryOperator" and l.op == "<" and l.kids[0].strip().k == "DeclRefExpr" and \
                     l.kids[0].strip().refdecl == vivar.refdecl and r.k == "BinaryOperator" and r.op == ">":
-                guards.append((l.kids[1], r.kids[1]))
+                guards.append((l.kids[1], r.kids[1], l))     # `l` is evaluated on every pass: its position stands for the refusal
         elif c.k == "BinaryOperator" and c.op == ">" and c.kids[0].strip().k == "DeclRefExpr" and \
                 c.kids[0].strip().refkind == "local" and (c.kids[0].strip().ctype or "") == "int" and c.kids[1].strip().cv is None:
-            guards.append((None, c.kids[1]))
+            guards.append((None, c.kids[1], c))
     R.counts["validation_guards"] = len(guards)
 
     # VLA extents
@@ -147,6 +147,14 @@ def run(P, tier="quick"):
         cond = None
         if e.k == "ConditionalOperator":
             cond, e = e.kids[0], e.kids[1].strip()
+        if e.k == "BinaryOperator" and e.op == "-" and e.kids[1].strip().cv == 1 and e.kids[0].strip().k == "DeclRefExpr" and \
+                e.kids[0].strip().refkind == "local":
+            # `port - 1` with `port = MAP[j]`
+            sd0 = cn.single_def(e.kids[0].strip().refdecl)
+            if sd0 is not None and sd0.strip().k == "ArraySubscriptExpr" and map_of(sd0.strip().kids[0]) is not None:
+                ivar = ivar or e.kids[0].strip()
+                import types
+                e = types.SimpleNamespace(k="BinaryOperator", op="-", kids=[sd0, e.kids[1]], text=e.text)
         if not (e.k == "BinaryOperator" and e.op == "-" and e.kids[1].strip().cv == 1 and
                 e.kids[0].strip().k == "ArraySubscriptExpr" and map_of(e.kids[0].strip().kids[0]) is not None):
             continue
@@ -191,9 +199,14 @@ def run(P, tier="quick"):
         if explicit:
             R.ok(key, PROPS)
             continue
-        # VALIDATED
+        # VALIDATED: inside the validation loop itself only the refusals in front of the subscript count
+        all_guards = guards
+        if vloop.is_ancestor_of(s) and fc.cfg is not None:
+            guards_here = [(g_, x_, c_) for (g_, x_, c_) in all_guards if dominates(fc.cfg, c_, s)]
+        else:
+            guards_here = all_guards
         at = {}
-        for x in [B, E, vbound] + [g for g, _ in guards if g is not None] + [x_ for _, x_ in guards] + ([cond] if cond is not None else []):
+        for x in [B, E, vbound] + [g for g, _, _ in guards_here if g is not None] + [x_ for _, x_, _ in guards_here] + ([cond] if cond is not None else []):
             _atoms(x, cn, at)
         names = sorted(at, key=str)
         hole = None
@@ -211,7 +224,7 @@ def run(P, tier="quick"):
                 VB = ev(vbound, env)
 
                 def pos_bound(p):
-                    xs = [ev(x_, env) for (g, x_) in guards if g is None or p < ev(g, env)]
+                    xs = [ev(x_, env) for (g, x_, _) in guards_here if g is None or p < ev(g, env)]
                     return min(xs) if xs else None
                 allb = [pos_bound(q) for q in range(VB)]
                 for p in range(Bv):
